@@ -285,6 +285,8 @@ def render_fn(fn, recipe, log):
             raise ExtractError(f"drop pattern {pat!r} matched {len(mm)} times")
         log["dropped_text"].append(mm[0].group(0).strip())
         body = body[:mm[0].start()] + body[mm[0].end():]
+    if recipe.get("erase_errors"):
+        body = erase_error_values(body, recipe["erase_errors"], log)
     # generic desugarings (order matters: chains first, then patterns)
     for d in recipe.get("desugar", []):
         body = DESUGARINGS[d](body, log)
@@ -467,3 +469,39 @@ def desugar_ref_patterns(body, log):
 
 
 DESUGARINGS = {"let_chains": desugar_let_chains, "deref_pat": desugar_deref_patterns, "ref_pat": desugar_ref_patterns}
+
+
+def erase_error_values(body, prefixes, log, replacement="VerifError {}"):
+    """Replace every expression `<prefix><Ident>(<balanced>)` (an error VALUE being built, e.g.
+    `P2PError::Security(SecurityError::X(format!(..).into()))`) by a unit error value. The error
+    payload (message text, nested enums) is DROPPED -- listed in the evidence; control flow (which
+    branch returns Err) is untouched."""
+    count = 0
+    for prefix in prefixes:
+        while True:
+            sset = set(p for p, _ in _scan_tokens(body, 0))
+            hit = None
+            for m in re.finditer(re.escape(prefix) + r"\w+\s*\(", body):
+                if m.start() in sset:
+                    hit = m
+                    break
+            if not hit:
+                break
+            o = hit.end() - 1
+            depth = 0
+            close = None
+            for pos, ch in _scan_tokens(body, o):
+                if ch in "([{":
+                    depth += 1
+                elif ch in ")]}":
+                    depth -= 1
+                    if depth == 0:
+                        close = pos
+                        break
+            if close is None:
+                raise ExtractError("erase_error_values: unbalanced")
+            body = body[:hit.start()] + replacement + body[close + 1:]
+            count += 1
+    if count:
+        log["rewrites"].append(f"erase error values: {count} expression(s) `{'|'.join(prefixes)}Variant(..)` -> `{replacement}` (error payload / message text dropped)")
+    return body
